@@ -117,11 +117,23 @@ class Flip(e2.Case):
                 sign_e2 = obj2.get_parity_sign()
                 same_wcs = obj2.wcs is wcs_e1
                 same_arr = (obj2.asarray() is arr_e1) if self.kind == "image" else True
+                # a history on ONE object: ensure, flip, ensure again (state kept between calls must not matter)
+                if self.kind == "image":
+                    obj3 = Image.from_array(arr, wcs=wcs0)
+                else:
+                    obj3 = ImageDescription(shape=(H, W), wcs=wcs0)
+                obj3.ensure_negative_parity()
+                obj3.flip_parity()
+                sign_h1 = obj3.get_parity_sign()
+                obj3.ensure_negative_parity()
+                sign_h2 = obj3.get_parity_sign()
+                wcs_h = obj3.wcs
+                arr_h = obj3.asarray() if self.kind == "image" else None
         finally:
             awcs.WCS = saved
         out = dict(sign0=sign0, sign1=sign1, sign_e1=sign_e1, sign_e2=sign_e2, same_wcs=same_wcs, same_arr=same_arr,
                    arr=arr, arr1=arr1, arr_e1=arr_e1, H=H, x=x, y=y, wcs0=wcs0, wcs1=wcs1, wcs_e1=wcs_e1,
-                   ret_is_self=ret is obj, offd=offd, vals=vals)
+                   ret_is_self=ret is obj, offd=offd, vals=vals, sign_h1=sign_h1, sign_h2=sign_h2, wcs_h=wcs_h, arr_h=arr_h)
         if not w.symbolic:
             a = wcs0.wcs_pix2world([[x, y]], 0)[0]
             b = wcs1.wcs_pix2world([[x, H - 1 - y]], 0)[0]
@@ -129,6 +141,8 @@ class Flip(e2.Case):
             ye = (H - 1 - y) if sign0 == 1 else y
             c = wcs_e1.wcs_pix2world([[x, ye]], 0)[0]
             out["world_equal_ensure"] = bool(_np.allclose(a, c, rtol=0, atol=1e-7))
+            ch = wcs_h.wcs_pix2world([[x, ye]], 0)[0]
+            out["world_equal_history"] = bool(_np.allclose(a, ch, rtol=0, atol=1e-7))
             d0 = _np.linalg.det(wcs0.pixel_scale_matrix)
             out["det_negative"] = bool(d0 < 0)
         return out
@@ -175,6 +189,15 @@ class Flip(e2.Case):
         aft2 = world(e11, e12, e21, e22, ec1, ec2, x, ye)
         w.claim("ensure-keeps-sky-position", z3.And(before[0] == aft2[0], before[1] == aft2[1]), probe=lambda ro, val: ro["world_equal_ensure"],
                 what="ensure_negative_parity moved a pixel on the sky")
+        w.claim("ensure-flip-ensure-yields-minus-one", o["sign_h1"] == 1 and o["sign_h2"] == -1, probe=lambda ro, val: ro["sign_h1"] == 1 and ro["sign_h2"] == -1,
+                what="on one object: ensure_negative_parity, flip_parity (parity must now be +1), ensure_negative_parity must end with parity -1")
+        h11, h12, h21, h22, hc1, hc2 = o["wcs_h"].cd()
+        aft3 = world(h11, h12, h21, h22, hc1, hc2, x, ye)
+        w.claim("ensure-flip-ensure-keeps-sky-position", z3.And(before[0] == aft3[0], before[1] == aft3[1]), probe=lambda ro, val: ro["world_equal_history"],
+                what="ensure / flip / ensure on one object moved a pixel on the sky")
+        if self.kind == "image":
+            w.claim_eq("ensure-flip-ensure-rows", o["arr_h"].get((r, c)), o["arr"].get((yy, c)), probe=("arr_h", (r, c)),
+                       what="ensure / flip / ensure on one object must leave the rows as after the first ensure")
 
 
 def cases(tier):
